@@ -639,10 +639,6 @@ impl<'a> ExtensionFieldData<'a> {
                     }
                 };
 
-                // for the current ciphers we allow in non-test code,
-                // the nonce should always be 16 bytes
-                debug_assert_eq!(encrypted.nonce.len(), 16);
-
                 efdata.encrypted.extend(encrypted_fields);
                 cookie = match cipher {
                     super::crypto::CipherHolder::DecodedServerCookie(cookie) => Some(cookie),
